@@ -260,6 +260,66 @@ def check_func(src):
         cd = describe(cont, container=True) if cont is not None else "none"
         fail(f"effect-ignored: `{_c(e)}` inside `{_c(cont) if cont is not None else '?'}` is accepted by the gate and given no flow (no warning)",
              ["effect-ignored", cd, k], "every effect site dispatched to a rule", "no rule applied")
+    # 2a. every loop / conditional the analysis can reach is itself handed to a rule (a loop whose body is analysed as
+    #     straight-line code, without the loop rule, has not been given its flow)
+    if not dinfo["early_exit"] and not dinfo["exc"]:
+        def ctls(n, pre, out):
+            if cls(n) in COND_OWNERS:
+                out.append((pre, n))
+            for s_, i_, c_ in D.children(n):
+                if s_ in ("cond", "init", "next"):
+                    continue
+                ctls(c_, pre + ((s_, i_),), out)
+            return out
+        for tp, cn in ctls(f.body, (("body", 0),), []):
+            if any(tp[:len(w)] == w for w in warned_t) or tp in all_visited:
+                continue
+            if any(cls(node_at([list(x) for x in tp[:k]])) in ("Switch", "Label", "Case", "Default") for k in range(1, len(tp))):
+                continue
+            fail(f"control-not-dispatched: the {cls(cn)} statement `{_c(cn)[:80]}` of an accepted function is never handed to its rule (no warning)",
+                 ["control-not-dispatched", cls(cn)], "every loop / conditional dispatched", "not dispatched")
+    # 2b. for headers: a variable copied into the loop header by ANY initialiser is either the guard X or an iterator
+    #     (an initialiser whose source is dropped from the guard computation is an ignored effect `j = y`)
+    def fors(n, out):
+        if cls(n) == "For":
+            out.append(n)
+        for _, _, c in D.children(n):
+            fors(c, out)
+        return out
+    for fn in fors(f.body, []):
+        try:
+            okc, xvar = Coverage.loop_compat(fn)
+        except Exception:
+            continue
+        if not okc:
+            continue
+        init = fn.init
+        items = [] if init is None else (init.decls if cls(init) == "DeclList" else (init.exprs if cls(init) == "ExprList" else [init]))
+        lv, src = set(), set()
+        for it in items:
+            if cls(it) == "Decl":
+                lv.add(it.name)
+                if it.init is not None and cls(it.init) == "ID":
+                    src.add(it.init.name)
+            elif cls(it) == "Assignment":
+                if cls(it.lvalue) == "ID":
+                    lv.add(it.lvalue.name)
+                if cls(it.rvalue) == "ID":
+                    src.add(it.rvalue.name)
+        nxt = set()
+
+        def ids(n):
+            if n is None:
+                return
+            if cls(n) == "ID":
+                nxt.add(n.name)
+            for _, _, c in D.children(n):
+                ids(c)
+        ids(fn.next)
+        dropped = sorted(src - lv - nxt - {xvar})
+        if dropped:
+            fail(f"header-source-dropped: for-loop accepted as `loop {xvar}` although its header also copies {dropped} into an iterator; that flow is ignored",
+                 ["header-source-dropped"], "a for header with one guard variable", _c(fn.init))
     # 3. the independent grammar must tell the same story (effect-free skipped statements aside)
     hard = [x for x in fails if x["sig"][1] != "covered-but-skipped-noeffect"]
     if not dinfo["early_exit"] and not dinfo["exc"] and info["spec"] is not None:
